@@ -192,12 +192,15 @@ func findFunctionCallViolation(
 
 		// The identifier must denote the package-level function itself, not a local
 		// variable, parameter or closure that merely shares its name
+		// Without a qualifier the function belongs to this package, or to a dot-imported one
+		pkgPath := *ctx.currentPkgPath
 		if obj := ctx.pass.TypesInfo.Uses[fun]; obj != nil {
-			if _, isFunc := obj.(*types.Func); !isFunc || obj.Pkg() == nil || obj.Pkg().Path() != *ctx.currentPkgPath {
+			if _, isFunc := obj.(*types.Func); !isFunc || obj.Pkg() == nil {
 				break
 			}
+			pkgPath = obj.Pkg().Path()
 		}
-		if ctx.testOnlyFuncs.Match(*ctx.currentPkgPath, funcName, funcName) {
+		if ctx.testOnlyFuncs.Match(pkgPath, funcName, funcName) {
 			return &TestOnlyViolation{
 				Pos:         call.Pos(),
 				TestOnlyObj: funcName,
